@@ -1103,7 +1103,7 @@ def solve(objfun, x0, h=None, lh=None, prox_uh=None, argsf=(), argsh=(), argspro
         xp = dykstra(projections,x0,max_iter=params("dykstra.max_iters"),tol=params("dykstra.d_tol"))
         if not np.allclose(xp,x0):
             warnings.warn("x0 not feasible w.r.t given constraints, adjusting", RuntimeWarning)
-            x0 = xp.copy()
+        x0 = xp.copy()  # a feasible x0 is a fixed point of the projections (up to rounding)
 
     # Enforce lower & upper bounds on x0
     idx = (x0 < xl)
